@@ -381,8 +381,9 @@ def h_disabled() -> bool:
         conds = [status in (0, None), e.imp.requested == [], e.imp.calls == [], len(docs) == 1]
         if len(docs) == 1 and mode != "l":
             doc = docs[0]
-            conds += ["SRC Details" not in doc["Primary SRC"], hd.parse(doc["User Data 0"]["Data"]) == b"\x01\x02\x03",
-                      hd.parse(doc["Extended User Data"]["Data"]) == b"\x06\x07"]
+            raw = lambda sec: hd.parse(doc.get(sec, {}).get("Data") or []) if isinstance(doc.get(sec, {}).get("Data"), list) else None
+            conds += ["SRC Details" not in doc.get("Primary SRC", {}), raw("User Data 0") == b"\x01\x02\x03",
+                      raw("Extended User Data") == b"\x06\x07"]
         return verdict(sym_all(conds), obs={"requested": e.imp.requested, "status": status})
     try:
         with e:
